@@ -133,6 +133,12 @@ def accept_atoms(guard):
             return [cmp_atom('Eq', T('const', 0), c)]
         vals = [v for v in guard.pass_vals]
         return [('in', canon(c), tuple(sorted(vals, key=lambda x: (len(x), x))))]
+    # a switch on a discriminant is a variant test whatever its arms look like (`let Ok(x) = r else { .. }` has the arms of a boolean)
+    if c.tag == 'discr' and guard.discr_ty and any(guard.discr_ty.startswith(pre) for pre in SUCCESS_VARIANT):
+        pv = list(guard.pass_vals)
+        if 'otherwise' in pv and len(guard.reject_vals) == 1 and guard.reject_vals[0] in ('0', '1'):
+            pv = ['1' if guard.reject_vals[0] == '0' else '0']          # two variants: everything but the rejected one
+        return [variant_atom(c[1], guard.discr_ty, pv)]
     # boolean conditions
     if guard.reject_when_true() or guard.reject_when_false():
         return bool_atom(c, positive=guard.reject_when_false())
@@ -152,12 +158,27 @@ def variant_atom(x, ty, arms):
     arms = tuple(sorted(arms))
     for pre, good in SUCCESS_VARIANT.items():
         if ty and ty.startswith(pre):
+            verdict = None
             if arms == (good,):
-                return ('succ', canon(x))
-            if len(arms) == 1:
-                return ('fail', canon(x))
-            if good in arms and 'otherwise' not in arms:
-                return ('succ', canon(x))
+                verdict = 'succ'
+            elif len(arms) == 1:
+                verdict = 'fail'
+            elif good in arms and 'otherwise' not in arms:
+                verdict = 'succ'
+            if verdict is not None:
+                # `cond.then_some(v)` / `cond.then(|| v)` (through ok_or / ok_or_else) is Some exactly when cond holds: the test is the condition
+                y = x
+                while y.tag in ('mut', 'via'):
+                    y = y[1] if y.tag == 'mut' else y[2]
+                while y.tag == 'call' and _nm(y[1]) in ('ok_or', 'ok_or_else') and y[2]:
+                    y = y[2][0]
+                    while y.tag in ('mut', 'via'):
+                        y = y[1] if y.tag == 'mut' else y[2]
+                if y.tag == 'call' and _nm(y[1]) in ('then_some', 'then') and len(y[2]) == 2 and 'bool' in y[1]:
+                    atoms = bool_atom(y[2][0], positive=(verdict == 'succ'))
+                    if len(atoms) == 1:
+                        return atoms[0]
+                return (verdict, canon(x))
     return ('variant', canon(x), arms)
 
 
